@@ -32,7 +32,7 @@ from mapproxy.image import BlankImageSource
 from mapproxy.image.opts import ImageOptions
 from mapproxy.image.mask import mask_image_source_from_coverage
 from mapproxy.util.ext.odict import odict
-from mapproxy.util.coverage import load_limited_to
+from mapproxy.util.coverage import load_limited_to_all
 
 import logging
 log = logging.getLogger(__name__)
@@ -134,13 +134,10 @@ class TileServer(Server):
                 return
             if result['authorized'] == 'partial':
                 if result['layers'].get(tile_layer.name, {}).get('tile', False) is True:
-                    limited_to = result['layers'][tile_layer.name].get('limited_to')
-                    if not limited_to:
-                        limited_to = result.get('limited_to')
-                    if limited_to:
-                        return load_limited_to(limited_to)
-                    else:
-                        return None
+                    # the limit of the layer and the limit of the whole request both apply
+                    return load_limited_to_all(
+                        result['layers'][tile_layer.name].get('limited_to'),
+                        result.get('limited_to'))
             raise RequestError('forbidden', status=403)
 
     def authorized_tile_layers(self, env):
